@@ -3,6 +3,9 @@ package main
 import (
 	"bytes"
 	"context"
+	"crypto/ecdsa"
+	"crypto/ed25519"
+	"crypto/elliptic"
 	"crypto/rand"
 	"crypto/rsa"
 	"crypto/sha1"
@@ -129,6 +132,18 @@ func (p *loginPeer) keyBytes(a string) []byte {
 		return []byte{}
 	case "wskey":
 		return []byte("\n \t\r\n\x00 \n")
+	case "pkixec": // a well-formed PKIX public key that is not an RSA key
+		k, err := ecdsa.GenerateKey(elliptic.P256(), rand.Reader)
+		if err != nil {
+			return []byte{}
+		}
+		b, _ := x509.MarshalPKIXPublicKey(&k.PublicKey)
+		return pem.EncodeToMemory(&pem.Block{Type: []string{"PUBLIC KEY", "RSA PUBLIC KEY"}[p.rng.Intn(2)], Bytes: b})
+	case "pkixed":
+		seed := make([]byte, ed25519.SeedSize)
+		p.rng.Read(seed)
+		b, _ := x509.MarshalPKIXPublicKey(ed25519.NewKeyFromSeed(seed).Public())
+		return pem.EncodeToMemory(&pem.Block{Type: []string{"PUBLIC KEY", "RSA PUBLIC KEY"}[p.rng.Intn(2)], Bytes: b})
 	}
 	return pk1
 }
